@@ -189,14 +189,25 @@ type World struct {
 }
 
 type entry struct {
-	key string
-	val []byte
-	rev uint64
+	key   string
+	val   []byte
+	rev   uint64
+	stall func()
 }
 
-func (e *entry) Key() string      { return e.key }
-func (e *entry) Value() []byte    { return e.val }
-func (e *entry) Revision() uint64 { return e.rev }
+func (e *entry) Key() string   { return e.key }
+func (e *entry) Value() []byte { return e.val }
+
+// Revision: a reader of an answer can be descheduled between looking at the value and looking at the revision
+// (Rule.Stall: for that long, or until its own instance raises the claim, whichever comes first).
+func (e *entry) Revision() uint64 {
+	if e.stall != nil {
+		f := e.stall
+		e.stall = nil
+		f()
+	}
+	return e.rev
+}
 
 // sites: the innermost and the outermost library function on the calling goroutine's stack.
 var siteNames = []string{"?", "attemptAcquire", "attemptPriorityTakeover", "heartbeatLoop", "validateToken",
@@ -300,6 +311,7 @@ type plan struct {
 	pre, post int64
 	fault     string
 	hang      int64
+	stall     int64
 }
 
 func mix(a ...int64) uint64 {
@@ -385,6 +397,9 @@ func (kv *simKV) planFor(kind int, site int64) plan {
 		if r.Hang > 0 {
 			p.hang = r.Hang
 		}
+		if r.Stall > 0 {
+			p.stall = r.Stall
+		}
 	}
 	return p
 }
@@ -421,6 +436,11 @@ func retKind(k refstore.Kind) int64 {
 //	apply  op okind rev val          (val: the value a Get read, else 0)
 //	ret    i op rkind rev val
 func (kv *simKV) call(kind int, key string, val []byte, exp uint64) (refstore.Outcome, error) {
+	out, _, err := kv.callP(kind, key, val, exp)
+	return out, err
+}
+
+func (kv *simKV) callP(kind int, key string, val []byte, exp uint64) (refstore.Outcome, plan, error) {
 	w := kv.w
 	inner, root := callSite()
 	g := gid()
@@ -515,9 +535,9 @@ func (kv *simKV) call(kind int, key string, val []byte, exp uint64) (refstore.Ou
 	w.tr.recLocked("ret", int64(kv.in.idx), op, rk, rrev, rv)
 	w.tr.mu.Unlock()
 	if err != nil {
-		return refstore.Outcome{}, err
+		return refstore.Outcome{}, p, err
 	}
-	return out, nil
+	return out, p, nil
 }
 
 func (kv *simKV) Create(key string, value []byte, opts ...interface{}) (uint64, error) {
@@ -531,11 +551,25 @@ func (kv *simKV) Update(key string, value []byte, rev uint64, opts ...interface{
 }
 
 func (kv *simKV) Get(key string) (leader.Entry, error) {
-	out, err := kv.call(kGet, key, nil, 0)
+	out, p, err := kv.callP(kGet, key, nil, 0)
 	if err != nil {
 		return nil, err
 	}
-	return &entry{key: key, val: out.Value, rev: out.Rev}, nil
+	en := &entry{key: key, val: out.Value, rev: out.Rev}
+	if p.stall > 0 {
+		in, was := kv.in, kv.in.el != nil && kv.in.el.IsLeader()
+		en.stall = func() {
+			kv.w.tr.rec("envmark", 14, int64(in.idx), p.stall)
+			kv.w.fire(in.idx, "stall")
+			for t := int64(0); t < p.stall && in.el.IsLeader() == was; t += int64(time.Millisecond) {
+				time.Sleep(time.Millisecond)
+			}
+			for k := 0; k < 8; k++ {
+				runtime.Gosched()
+			}
+		}
+	}
+	return en, nil
 }
 
 func (kv *simKV) Delete(key string) error {
